@@ -65,7 +65,11 @@ func (fp *FilePath) Write(b []byte) (n int, err error) {
 
 	for i := 0; i < int(binary.BigEndian.Uint16(fp.ItemCount[:])); i++ {
 		var fpi FilePathItem
-		scanner.Scan()
+		if !scanner.Scan() {
+			// The declared item count or an item's length overruns the path data.  Going on would decode the
+			// previous item again for every remaining count (up to 65535 times).
+			return n, errors.New("invalid file path: item count or item length exceeds the path data")
+		}
 
 		// Make a new []byte slice and copy the scanner bytes to it.  This is critical to avoid a data race as the
 		// scanner re-uses the buffer for subsequent scans.
